@@ -80,7 +80,10 @@ def t_empty_request(E):
     E.prove("C38.EmptyRequest.identity_when_args_unchanged", E.Implies(nc, E.And(
         E.eq(new, tr), E.eq(w, 0.0), isinstance(bwd, Obj) and bwd.cls.name == "EmptyRequest" or E.Not(nc),
         E.eq(E.call(INC + ":Diff.tree_primal", rd), E.method(tr, "get_retval")), T.all_nochange(rd))))
-    E.prove("C38.EmptyRequest.empty_update_otherwise", E.Implies(E.Not(nc), E.eq(tuple((new, w, rd, bwd)), tuple(direct))))
+    # (C08: in particular the return-value change tags are those of the empty Update - a changed argument may change the
+    # return value of the callee, and sites downstream of an unaddressed StaticRequest site rely on that tag)
+    E.prove("C38.EmptyRequest.empty_update_otherwise", E.Implies(E.Not(nc), E.eq(tuple((new, w, rd, bwd)), tuple(direct))),
+            also=["C08"])
     E.refutable("derived.empty_request", E.eq(new, tr))
 
 
